@@ -398,4 +398,67 @@ MUTANTS = [
     ("c14_hash_based_tiebreak_in_dynamics", [], NW,
      "        for src_addr in self.address_space:\n            if not state.host_compromised(src_addr):\n                continue\n            if action.is_scan() and \\",
      "        for src_addr in sorted(self.address_space, key=lambda a: hash(str(a))):\n            if not state.host_compromised(src_addr):\n                continue\n            if action.is_scan() and \\"),
+    # ---------------- C17
+    ("c17_os_scan_cost_from_service", ["C17"], LD,
+     "        self.os_scan_cost = self.yaml_dict[u.OS_SCAN_COST]",
+     "        self.os_scan_cost = self.yaml_dict[u.SERVICE_SCAN_COST]"),
+    ("c17_root_mapped_to_user", ["C17"], LD,
+     '    "root": u.ROOT_ACCESS\n}', '    "root": u.USER_ACCESS\n}'),
+    ("c17_host_value_ignored", ["C17"], LD,
+     "        return float(host_cfg.get(u.HOST_VALUE, u.DEFAULT_HOST_VALUE))",
+     "        return float(u.DEFAULT_HOST_VALUE)"),
+    ("c17_firewall_keys_swapped", ["C17", "C02"], LD,
+     "            self.firewall[eval(connect)] = v",
+     "            self.firewall[eval(connect)[::-1]] = v"),
+    ("c17_revert_F4_prob_one", ["C17"], LD,
+     "        assert 0 <= e[u.EXPLOIT_PROB] <= 1, \\",
+     "        assert 0 <= e[u.EXPLOIT_PROB] < 1, \\"),
+    ("c17_step_limit_default", ["C17"], LD,
+     "            step_limit = None\n", "            step_limit = 1000\n"),
+    ("c17_process_list_shared", ["C17"], LD,
+     "            processes_cfg[process] = process in host_cfg[u.HOST_PROCESSES]",
+     "            processes_cfg[process] = process in host_cfg[u.HOST_PROCESSES] or not host_cfg[u.HOST_PROCESSES]"),
+    ("c17_sensitive_value_int_cast", ["C17"], LD,
+     "            return float(self.sensitive_hosts[address])",
+     "            return float(int(self.sensitive_hosts[address]))"),
+    ("c17_privesc_os_none_lost", ["C17"], LD,
+     '        if str(pe[u.PRIVESC_OS]).lower() == "none":\n            pe[u.PRIVESC_OS] = None',
+     '        if str(pe[u.PRIVESC_OS]) == "none":\n            pe[u.PRIVESC_OS] = None'),
+    ("c17_host_firewall_first_rule_only", ["C17"], LD,
+     "                eval(src): srvs for src, srvs in h_cfg[u.HOST_FIREWALL].items()\n",
+     "                eval(src): srvs[:1] for src, srvs in h_cfg[u.HOST_FIREWALL].items()\n"),
+    # ---------------- C18
+    ("c18_revert_F3", ["C18"], LD,
+     "            if eval(addr) in self.sensitive_hosts:\n                sh_value = self.sensitive_hosts[eval(addr)]",
+     "            if addr in self.sensitive_hosts:\n                sh_value = self.sensitive_hosts[addr]"),
 ]
+
+
+REDUNDANT_LOADER_ASSERTS = {134, 140, 162, 179, 195, 236, 243, 294, 298, 299,
+                            337, 340, 341, 417, 422, 451}
+
+
+def _loader_assert_mutants():
+    """One mutant per `assert` statement of the loader (replaced by pass)."""
+    import ast
+    src = open("/repo/" + LD).read()
+    lines = src.split("\n")
+    out = []
+    for node in ast.walk(ast.parse(src)):
+        if isinstance(node, ast.Assert):
+            a, b = node.lineno - 1, node.end_lineno
+            old = "\n".join(lines[a:b])
+            if src.count(old) != 1:
+                continue
+            indent = old[:len(old) - len(old.lstrip())]
+            # asserts whose removal still ends in an exception for every
+            # document that breaks their rule (KeyError / TypeError / a later
+            # assert): equivalent with respect to C18 ("raises an error")
+            redundant = node.lineno in REDUNDANT_LOADER_ASSERTS
+            out.append((f"c18_drop_assert_L{node.lineno}",
+                        [] if redundant else ["C18"], LD, old,
+                        indent + "pass"))
+    return out
+
+
+MUTANTS += _loader_assert_mutants()
